@@ -48,4 +48,18 @@ def hortonFamily (g : Adj) : List (List Nat) := (keys g).flatMap (hortonFrom g (
 def checkMinimalHorton (g : Adj) (rings : List (List Nat)) : Bool :=
   checkMinimalWrt (wvecs g rings) (wvecs g (hortonFamily g))
 
+/-- a cycle basis of `g`: simple cycles, GF(2)-independent, as many as the cyclomatic number -/
+def IsCycleBasis (g : Adj) (R : List (List Nat)) : Prop :=
+  (∀ r ∈ R, IsSimpleCycle g r) ∧ Independent (R.map (ringVec (edgeList g))) ∧ cyclomatic g = some (R.length : Int)
+
+/-- total size of a ring list -/
+def totalSize (R : List (List Nat)) : Nat := (R.map (·.length)).sum
+
+/-- **Horton completeness** (Horton 1987, Thm 4: some minimum cycle basis consists of cycles `P(v,x) + (x,y) + P(y,v)`),
+for the executable family `hortonFamily`: every cycle basis is matched or beaten by one drawn from the family.
+This is the *named hypothesis* of `sssr_minimum_of_horton_complete`; it is not proved in Lean (validated per run: the greedy
+basis over the family is compared with an all-cycles greedy for ≤ 6 atoms and with an independent Python Horton). -/
+def HortonComplete (g : Adj) : Prop :=
+  ∀ R, IsCycleBasis g R → ∃ R', (∀ r ∈ R', r ∈ hortonFamily g) ∧ IsCycleBasis g R' ∧ totalSize R' ≤ totalSize R
+
 end ChythonModel.Spec.CycleBasis
